@@ -105,7 +105,7 @@ def build(system, rows, momentum, struct, route="zip", spelling=0, extra=False, 
             cols = {k: ak.to_regular(v, axis=1) for k, v in cols.items()}
         if route == "zip":
             return vector.zip(cols, depth_limit=depth_limit)
-        return ak.zip(cols, depth_limit=depth_limit, with_name=f"{flavor}{dim}D", behavior=vba.behavior)
+        return ak.zip(cols, depth_limit=depth_limit, with_name=f"{flavor}{dim}D", behavior=None if vector._awkward_registered else vba.behavior)
     if route == "Array":
         def rec(r):
             d = {n: float(rows[r][i]) for i, n in enumerate(names)}
